@@ -34,7 +34,7 @@ CLUSTERS = {
     "generic": {"types": ["GInt", "GBool", "GStr", "GListInt", "PairIntStr", "PairStrInt", "PairBoolStr", "ListInt", "listInt",
                           "SeqInt", "UIntStr", "UStrInt"], "recipes": ["plain", "chain_int_last"], "w": 1},
 }
-CONV_CLUSTER = ["Outer", "OuterSame", "Inner", "ListInner", "CNode", "Node2CNode", "Outer12", "M1M2", "InnerSame"]
+CONV_CLUSTER = ["Outer", "OuterSame", "Inner", "ListInner", "OptInner", "DictInner", "InnerTags", "M1M2", "InnerSame"]
 
 
 def _types(cluster):
